@@ -1,7 +1,392 @@
-From Coq Require Import ZArith List Bool Lia.
-Require Import SkV.Lib.Base SkV.C15.Model.
+(* C15 proofs, part 1: well-formedness, round trips nested / 3-D / multi-index / 2-D, shapes,
+   nestedness predicates, check_X. *)
+From Coq Require Import ZArith List Bool Lia Permutation.
+Require Import SkV.Lib.Base SkV.C15.Model SkV.C15.Lemmas.
 Import ListNotations.
 Open Scope Z_scope.
 
-Lemma placeholder_nested_3d : forall (V : Type) (x : nested V), nested_to_3d x = n_rows x.
-Proof. reflexivity. Qed.
+(* ---------------------------------------------------------------------------------------------- *)
+(* identifiers *)
+
+Lemma zlist_eqb_eq a b : zlist_eqb a b = true <-> a = b.
+Proof.
+  revert b. induction a as [|x a IH]; intros [|y b]; cbn; try (split; [discriminate|congruence]).
+  - tauto.
+  - rewrite andb_true_iff, IH, Z.eqb_eq. split; [intros [-> ->]; reflexivity|].
+    intro H. inversion H. tauto.
+Qed.
+
+Lemma name_eqb_eq a b : name_eqb a b = true <-> a = b.
+Proof.
+  destruct a as [x|x], b as [y|y]; cbn; try (split; [discriminate|congruence]).
+  - rewrite zlist_eqb_eq. split; congruence.
+  - rewrite Z.eqb_eq. split; congruence.
+Qed.
+
+Lemma name_eqb_refl a : name_eqb a a = true.
+Proof. apply name_eqb_eq. reflexivity. Qed.
+
+Lemma name_eqb_neq a b : name_eqb a b = false <-> a <> b.
+Proof.
+  rewrite <- name_eqb_eq. destruct (name_eqb a b); split; congruence.
+Qed.
+
+Lemma distinctb_NoDup l : distinctb l = true <-> NoDup l.
+Proof.
+  induction l as [|a t IH]; cbn.
+  - split; [constructor|reflexivity].
+  - rewrite andb_true_iff, IH, negb_true_iff. split.
+    + intros [H1 H2]. constructor; [|exact H2]. intro Hin.
+      assert (existsb (name_eqb a) t = true); [|congruence].
+      apply existsb_exists. exists a. split; [exact Hin|apply name_eqb_refl].
+    + intro H. inversion H; subst. split; [|assumption].
+      destruct (existsb (name_eqb a) t) eqn:E; [|reflexivity].
+      apply existsb_exists in E. destruct E as [y [Hy Hay]]. apply name_eqb_eq in Hay. subst y.
+      contradiction.
+Qed.
+
+Lemma default_names_length c : length (default_names c) = c.
+Proof. unfold default_names. rewrite map_length. apply ziota_length. Qed.
+
+(* ---------------------------------------------------------------------------------------------- *)
+(* well-formed panels *)
+
+Lemma hd_in {A} (d : A) l : (1 <= length l)%nat -> In (hd d l) l.
+Proof. destruct l; cbn; [lia|]. intros _. left. reflexivity. Qed.
+
+Lemma map_const {A B} (b : B) (l : list A) : map (fun _ => b) l = repeat b (length l).
+Proof. induction l as [|a l IH]; [reflexivity|]. cbn. f_equal. exact IH. Qed.
+
+Section Proofs1.
+  Context {V : Type}.
+  Implicit Types (p X : panel V) (x : nested V) (m : mi V).
+
+  Definition wf_panel (n c T : nat) p : Prop :=
+    (1 <= n)%nat /\ (1 <= c)%nat /\ (2 <= T)%nat /\ length p = n /\ Forall (rect c T) p.
+
+  Lemma wf_panelb_iff n c T p : wf_panelb n c T p = true <-> wf_panel n c T p.
+  Proof.
+    unfold wf_panelb, wf_panel. rewrite !andb_true_iff, !Nat.leb_le, Nat.eqb_eq, forallb_forall,
+      Forall_forall.
+    split.
+    - intros [[[[H1 H2] H3] H4] H5]. refine (conj H1 (conj H2 (conj H3 (conj H4 _)))).
+      intros i Hi. apply rectb_rect. apply H5. exact Hi.
+    - intros [H1 [H2 [H3 [H4 H5]]]]. refine (conj (conj (conj (conj H1 H2) H3) H4) _).
+      intros i Hi. apply rectb_rect. apply H5. exact Hi.
+  Qed.
+
+  Definition names_ok (c : nat) (cn : option (list name)) : Prop :=
+    match cn with Some l => length l = c /\ NoDup l | None => True end.
+
+  Lemma names_or_default_length cn c : names_ok c cn -> length (names_or_default cn c) = c.
+  Proof.
+    destruct cn as [l|]; cbn; [tauto|]. intros _. apply default_names_length.
+  Qed.
+
+  Section WF.
+    Variables (n c T : nat) (p : panel V).
+    Hypothesis Hwf : wf_panel n c T p.
+
+    Lemma wf_len : length p = n. Proof. apply Hwf. Qed.
+    Lemma wf_inst : forall inst, In inst p -> rect c T inst.
+    Proof. destruct Hwf as [_ [_ [_ [_ H]]]]. rewrite Forall_forall in H. exact H. Qed.
+
+    (* as an n x c matrix of series *)
+    Lemma wf_rect_series : rect n c p.
+    Proof.
+      split; [apply wf_len|]. apply Forall_forall. intros inst Hi. apply (wf_inst inst Hi).
+    Qed.
+
+    Lemma wf_shape_cols : shape_cols p = c.
+    Proof.
+      unfold shape_cols. apply (wf_inst (hd [] p)). apply hd_in. rewrite wf_len.
+      destruct Hwf. lia.
+    Qed.
+
+    Lemma wf_inst_time inst : In inst p -> length (hd [] inst) = T.
+    Proof.
+      intro Hi. destruct (wf_inst inst Hi) as [Hl HF]. destruct inst as [|s t].
+      - cbn in Hl. destruct Hwf as [_ [? _]]. lia.
+      - cbn. inversion HF. assumption.
+    Qed.
+
+    Lemma wf_shape_time : shape_time p = T.
+    Proof.
+      unfold shape_time. apply wf_inst_time. apply hd_in. rewrite wf_len. destruct Hwf. lia.
+    Qed.
+
+    (* --- nested <-> 3-D --- *)
+
+    Lemma a3_to_nested_eq cn k : a3_to_nested cn k p = mkN k (names_or_default cn c) p.
+    Proof.
+      unfold a3_to_nested. rewrite wf_shape_cols, wf_len.
+      rewrite (transpose_involutive n c p wf_rect_series). reflexivity.
+    Qed.
+
+    (* --- multi-index --- *)
+
+    Lemma block_rows_snd T' i inst : map snd (@block_rows V T' (i, inst)) = transpose T' inst.
+    Proof.
+      unfold block_rows. rewrite map_map. cbn [snd]. rewrite enum_enum_from. apply enum_from_snd.
+    Qed.
+
+    Lemma block_rows_inst T' i inst :
+      map r_inst (@block_rows V T' (i, inst)) = repeat i T'.
+    Proof.
+      unfold block_rows. rewrite map_map. cbn [fst r_inst]. rewrite map_const.
+      rewrite enum_enum_from, enum_from_length, transpose_length. reflexivity.
+    Qed.
+
+    Lemma block_rows_time T' i inst :
+      map r_time (@block_rows V T' (i, inst)) = ziota 0 T'.
+    Proof.
+      unfold block_rows. rewrite map_map. cbn [fst snd r_time]. rewrite enum_enum_from.
+      change (fun x : Z * list V => fst x) with (@fst Z (list V)).
+      rewrite enum_from_fst, transpose_length. reflexivity.
+    Qed.
+
+    Definition mi_rows : list ((Z * Z) * list V) := flat_map (block_rows T) (enum p).
+
+    Lemma mi_rows_vals : map snd mi_rows = concat (map (transpose T) p).
+    Proof.
+      unfold mi_rows. rewrite map_flat_map, flat_map_concat_map. f_equal.
+      rewrite enum_enum_from. rewrite <- (enum_from_snd 0 p) at 2. rewrite map_map.
+      apply map_ext. intros [i inst]. apply block_rows_snd.
+    Qed.
+
+    Lemma mi_rows_insts : map r_inst mi_rows = flat_map (fun i => repeat i T) (ziota 0 n).
+    Proof.
+      unfold mi_rows. rewrite map_flat_map. rewrite enum_enum_from.
+      rewrite <- wf_len, <- (enum_from_fst 0 p), flat_map_map.
+      apply flat_map_ext_in. intros [i inst] _. apply block_rows_inst.
+    Qed.
+
+    Lemma mi_rows_times : map r_time mi_rows = concat (repeat (ziota 0 T) n).
+    Proof.
+      unfold mi_rows. rewrite map_flat_map, enum_enum_from, <- wf_len.
+      rewrite <- (enum_from_length 0 p).
+      induction (enum_from 0 p) as [|[i inst] l IH]; [reflexivity|].
+      cbn [flat_map length repeat concat]. rewrite block_rows_time, IH. reflexivity.
+    Qed.
+
+    Lemma mi_rows_n_instances : uniqz (map r_inst mi_rows) = ziota 0 n.
+    Proof.
+      rewrite mi_rows_insts. apply uniqz_blocks; [destruct Hwf; lia|apply ziota_NoDup].
+    Qed.
+
+    Lemma mi_rows_n_timepoints : uniqz (map r_time mi_rows) = ziota 0 T.
+    Proof.
+      rewrite mi_rows_times. apply uniqz_copies; [destruct Hwf; lia|apply ziota_NoDup].
+    Qed.
+
+    Lemma a3_to_mi_eq cn : a3_to_mi cn p = mkM (names_or_default cn c) mi_rows.
+    Proof. unfold a3_to_mi, mi_rows. rewrite wf_shape_cols, wf_shape_time. reflexivity. Qed.
+
+    Lemma nested_to_mi_eq k cols : nested_to_mi (mkN k cols p) = mkM cols mi_rows.
+    Proof.
+      unfold nested_to_mi, mi_rows. cbn [n_cols n_rows]. f_equal.
+      apply flat_map_ext_in. intros [i inst] Hin. cbn [snd].
+      rewrite enum_enum_from in Hin. apply enum_from_In_ge in Hin.
+      rewrite (wf_inst_time inst); tauto.
+    Qed.
+
+    Lemma mi_to_3d_rows cols : length cols = c -> mi_to_3d (mkM cols mi_rows) = p.
+    Proof.
+      intro Hc. unfold mi_to_3d. cbn [m_rows m_cols].
+      rewrite mi_rows_n_instances, mi_rows_n_timepoints, !ziota_length, mi_rows_vals, Hc.
+      rewrite <- wf_len, <- (map_length (transpose T) p).
+      rewrite chunk_n_concat.
+      - rewrite map_map. rewrite <- (map_id p) at 2. apply map_ext_in. intros inst Hi.
+        apply transpose_involutive. apply (wf_inst inst Hi).
+      - apply Forall_forall. intros b Hb. apply in_map_iff in Hb. destruct Hb as [inst [<- _]].
+        apply transpose_length.
+    Qed.
+
+    Lemma block_rows_key T' i inst b : In b (@block_rows V T' (i, inst)) -> r_inst b = i.
+    Proof.
+      unfold block_rows. intro H. apply in_map_iff in H. destruct H as [tr [<- _]]. reflexivity.
+    Qed.
+
+    Lemma mi_to_nested_rows k cols :
+      length cols = c -> mi_to_nested k (mkM cols mi_rows) = mkN k cols p.
+    Proof.
+      intro Hc. unfold mi_to_nested. cbn [m_rows m_cols]. f_equal.
+      rewrite mi_rows_n_instances, <- wf_len. unfold mi_rows. rewrite enum_enum_from.
+      rewrite (map_filter_blocks r_inst (block_rows T) (block_rows_key T)
+                 (fun l => transpose (length cols) (map snd l)) 0 p).
+      rewrite <- (enum_from_snd 0 p) at 2. apply map_ext_in. intros [i inst] Hin.
+      rewrite block_rows_snd, Hc. cbn [snd]. apply transpose_involutive.
+      apply enum_from_In_ge in Hin. apply wf_inst. tauto.
+    Qed.
+
+    (* --- shapes --- *)
+
+    Lemma mi_rows_length : length mi_rows = (n * T)%nat.
+    Proof.
+      rewrite <- (map_length snd), mi_rows_vals.
+      rewrite (length_concat_rect n T).
+      - reflexivity.
+      - split; [rewrite map_length; apply wf_len|]. apply Forall_forall. intros b Hb.
+        apply in_map_iff in Hb. destruct Hb as [inst [<- _]]. apply transpose_length.
+    Qed.
+
+    Lemma mi_rows_width r : In r mi_rows -> length (snd r) = c.
+    Proof.
+      intro Hr. apply (in_map snd) in Hr. rewrite mi_rows_vals in Hr. apply in_concat in Hr.
+      destruct Hr as [blk [Hb Hr]]. apply in_map_iff in Hb. destruct Hb as [inst [<- Hi]].
+      destruct (transpose_rect c T inst (wf_inst inst Hi)) as [_ HF].
+      rewrite Forall_forall in HF. apply HF. exact Hr.
+    Qed.
+
+    Lemma tab_shape : rect n (c * T) (map (@concat V) p).
+    Proof.
+      split; [rewrite map_length; apply wf_len|]. apply Forall_forall. intros r Hr.
+      apply in_map_iff in Hr. destruct Hr as [inst [<- Hi]].
+      apply length_concat_rect. apply (wf_inst inst Hi).
+    Qed.
+  End WF.
+
+  (* --- 2-D table --- *)
+
+  Definition flattenp (p : panel V) : panel V := map (fun inst => [concat inst]) p.
+
+  Lemma tab_to_nested_flat k p : tab_to_nested k (map (@concat V) p) = mkN k [NInt 0] (flattenp p).
+  Proof. unfold tab_to_nested, flattenp. rewrite map_map. reflexivity. Qed.
+
+  Lemma tab_roundtrip k (t : tab2) : nested_to_2d (tab_to_nested k t) = t.
+  Proof.
+    unfold nested_to_2d, tab_to_nested. cbn [n_rows]. rewrite map_map.
+    rewrite <- (map_id t) at 2. apply map_ext. intro r. cbn. apply app_nil_r.
+  Qed.
+
+  Lemma flattenp_univariate n T p : wf_panel n 1 T p -> flattenp p = p.
+  Proof.
+    intros [_ [_ [_ [_ HF]]]]. unfold flattenp. rewrite <- (map_id p) at 2.
+    apply map_ext_in. intros inst Hi. rewrite Forall_forall in HF. destruct (HF inst Hi) as [Hl _].
+    destruct inst as [|s [|? ?]]; try discriminate. cbn. rewrite app_nil_r. reflexivity.
+  Qed.
+
+  Lemma flattenp_wf n c T p : wf_panel n c T p -> wf_panel n 1 (c * T) (flattenp p).
+  Proof.
+    intros Hwf. pose proof Hwf as [H1 [H2 [H3 [H4 H5]]]]. unfold flattenp.
+    repeat split; try lia; try nia.
+    - rewrite map_length. exact H4.
+    - apply Forall_forall. intros i Hi. apply in_map_iff in Hi. destruct Hi as [inst [<- Hi]].
+      split; [reflexivity|]. constructor; [|constructor].
+      apply length_concat_rect. rewrite Forall_forall in H5. apply H5. exact Hi.
+  Qed.
+
+  (* --- nestedness predicates --- *)
+
+  Lemma existsb_id_In l : existsb (fun b : bool => b) l = true <-> In true l.
+  Proof.
+    rewrite existsb_exists. split.
+    - intros [b [Hb Hb']]. subst b. exact Hb.
+    - intro H. exists true. tauto.
+  Qed.
+
+  Definition frame_rect (f : frame V) : Prop :=
+    Forall (fun r => length r = f_ncol f) (f_rows f).
+
+  Lemma are_columns_nested_nth f j :
+    frame_rect f -> (j < f_ncol f)%nat ->
+    nth j (are_columns_nested f) false =
+    existsb (fun r => cell_nested (nth j r CObj)) (f_rows f).
+  Proof.
+    intros HF Hj. unfold are_columns_nested.
+    rewrite <- (map_nth (existsb (fun b : bool => b))) with (d := []).
+    rewrite (transpose_nth false).
+    - induction (f_rows f) as [|r t IH]; [reflexivity|]. cbn [map existsb]. rewrite IH. f_equal.
+      rewrite <- (map_nth cell_nested). reflexivity.
+    - exact Hj.
+    - apply Forall_forall. intros r Hr. apply in_map_iff in Hr. destruct Hr as [r' [<- Hr']].
+      rewrite map_length. unfold frame_rect in HF. rewrite Forall_forall in HF. apply HF. exact Hr'.
+    - cbn. reflexivity.
+  Qed.
+
+  Lemma is_nested_iff f :
+    frame_rect f ->
+    (is_nested_dataframe f = true <->
+     exists row cl, In row (f_rows f) /\ In cl row /\ cell_nested cl = true).
+  Proof.
+    intro HF. unfold is_nested_dataframe, are_columns_nested.
+    set (mask := map (map cell_nested) (f_rows f)).
+    assert (Hr : rect (length (f_rows f)) (f_ncol f) mask).
+    { split; [unfold mask; apply map_length|]. apply Forall_forall. intros r Hr.
+      apply in_map_iff in Hr. destruct Hr as [r' [<- Hr']]. rewrite map_length.
+      unfold frame_rect in HF. rewrite Forall_forall in HF. apply HF. exact Hr'. }
+    rewrite existsb_id_In, in_map_iff.
+    split.
+    - intros [col [Hc Hin]]. apply existsb_id_In in Hc.
+      assert (H : In true (concat (transpose (f_ncol f) mask))).
+      { apply in_concat. exists col. tauto. }
+      apply (Permutation_in _ (concat_transpose_perm _ _ _ Hr)) in H.
+      apply in_concat in H. destruct H as [mrow [Hm Ht]]. unfold mask in Hm.
+      apply in_map_iff in Hm. destruct Hm as [row [<- Hrow]].
+      apply in_map_iff in Ht. destruct Ht as [cl [Hcl Hin']]. exists row, cl. tauto.
+    - intros [row [cl [Hrow [Hcl Hn]]]].
+      assert (H : In true (concat mask)).
+      { apply in_concat. exists (map cell_nested row). split.
+        - unfold mask. apply in_map. exact Hrow.
+        - rewrite <- Hn. apply in_map. exact Hcl. }
+      apply (Permutation_in _ (Permutation_sym (concat_transpose_perm _ _ _ Hr))) in H.
+      apply in_concat in H. destruct H as [col [Hc Ht]]. exists col. split; [|exact Hc].
+      apply existsb_id_In. exact Ht.
+  Qed.
+
+  Lemma frame_of_nested_rect n c T x :
+    wf_panel n c T (n_rows x) -> length (n_cols x) = c -> frame_rect (frame_of_nested x).
+  Proof.
+    intros Hwf Hc. unfold frame_rect, frame_of_nested. cbn [f_rows f_ncol].
+    apply Forall_forall. intros r Hr. apply in_map_iff in Hr. destruct Hr as [inst [<- Hi]].
+    rewrite map_length, Hc. apply (wf_inst n c T (n_rows x) Hwf inst Hi).
+  Qed.
+
+  Lemma nested_frames_are_nested n c T x :
+    wf_panel n c T (n_rows x) -> length (n_cols x) = c ->
+    is_nested_dataframe (frame_of_nested x) = true /\
+    are_columns_nested (frame_of_nested x) = repeat true c.
+  Proof.
+    intros Hwf Hc. pose proof (frame_of_nested_rect n c T x Hwf Hc) as HR. split.
+    - apply is_nested_iff; [exact HR|].
+      destruct (n_rows x) as [|inst t] eqn:E.
+      { destruct Hwf as [? [_ [_ [Hl _]]]]. cbn in Hl. lia. }
+      assert (Hi : In inst (n_rows x)) by (rewrite E; left; reflexivity).
+      destruct (wf_inst n c T (n_rows x) Hwf inst Hi) as [Hl _].
+      destruct inst as [|s ss]. { cbn in Hl. destruct Hwf as [_ [? _]]. lia. }
+      unfold frame_of_nested. cbn [f_rows]. rewrite E. cbn [map].
+      eexists. eexists. split; [left; reflexivity|]. split; [left; reflexivity|].
+      destruct (n_kind x); reflexivity.
+    - apply (nth_ext _ _ false false).
+      + unfold are_columns_nested. rewrite map_length, transpose_length, repeat_length.
+        unfold frame_of_nested. cbn. exact Hc.
+      + intros j Hj. unfold are_columns_nested in Hj. rewrite map_length, transpose_length in Hj.
+        rewrite are_columns_nested_nth by assumption.
+        assert (Hjc : (j < c)%nat) by (unfold frame_of_nested in Hj; cbn in Hj; lia).
+        rewrite nth_repeat.
+        unfold frame_of_nested. cbn [f_rows].
+        destruct (n_rows x) as [|inst t] eqn:E.
+        { destruct Hwf as [? [_ [_ [Hl _]]]]. cbn in Hl. lia. }
+        cbn [map existsb]. apply orb_true_iff. left.
+        assert (Hi : In inst (inst :: t)) by (left; reflexivity).
+        destruct (wf_inst n c T _ Hwf inst Hi) as [Hl _].
+        rewrite (nth_indep _ CObj (match n_kind x with KSeries => CSer [] | KArray => CArr [] end))
+          by (rewrite map_length; lia).
+        rewrite (map_nth (fun s => match n_kind x with KSeries => CSer s | KArray => CArr s end)).
+        destruct (n_kind x); reflexivity.
+  Qed.
+
+  Lemma prim_frames_not_nested ncol rows :
+    Forall (fun r => length r = ncol) rows ->
+    is_nested_dataframe (frame_of_prims ncol rows) = false.
+  Proof.
+    intro HF. destruct (is_nested_dataframe (frame_of_prims ncol rows)) eqn:E; [|reflexivity].
+    apply is_nested_iff in E.
+    - destruct E as [row [cl [Hrow [Hcl Hn]]]]. unfold frame_of_prims in Hrow. cbn in Hrow.
+      apply in_map_iff in Hrow. destruct Hrow as [r [<- _]].
+      apply in_map_iff in Hcl. destruct Hcl as [v [<- _]]. discriminate.
+    - unfold frame_rect, frame_of_prims. cbn. apply Forall_forall. intros r Hr.
+      apply in_map_iff in Hr. destruct Hr as [r' [<- Hr']]. rewrite map_length.
+      rewrite Forall_forall in HF. apply HF. exact Hr'.
+  Qed.
+End Proofs1.
